@@ -80,6 +80,26 @@ pub fn content(len: usize, salt: u64) -> Vec<u8> {
     v
 }
 
+/// Content whose tail (and a stretch in the middle) is all zero bytes: images padded with zeros are
+/// common, and "sparse" handling of zero blocks must not lose them.
+pub fn content_with_zero_runs(len: usize, salt: u64, block: usize) -> Vec<u8> {
+    let mut v = content(len, salt);
+    let b = block.max(1);
+    if len >= 2 * b {
+        let tail = (len / b / 2).max(1) * b;
+        let start = len - tail.min(len);
+        for x in &mut v[start..] {
+            *x = 0;
+        }
+    }
+    if len >= 6 * b {
+        for x in &mut v[b..2 * b] {
+            *x = 0;
+        }
+    }
+    v
+}
+
 /// Recursive snapshot (relative path -> content; directories map to None).
 pub fn snapshot(root: &Path) -> BTreeMap<String, Option<Vec<u8>>> {
     fn walk(root: &Path, dir: &Path, out: &mut BTreeMap<String, Option<Vec<u8>>>) {
@@ -116,6 +136,8 @@ pub struct ServerCfg {
     pub overwrite: bool,
     pub keep_on_error: bool,
     pub dup: Option<String>,
+    /// rotation of the flag groups on the command line (the order of flags must not matter)
+    pub arg_rot: usize,
 }
 
 impl ServerCfg {
@@ -131,39 +153,40 @@ impl ServerCfg {
             overwrite: false,
             keep_on_error: false,
             dup: None,
+            arg_rot: 0,
         }
     }
     pub fn args(&self) -> Vec<String> {
-        let mut a: Vec<String> = vec!["tftpd".into()];
-        a.push("-i".into());
-        a.push(if self.v6 { "::1".into() } else { "127.0.0.1".into() });
-        a.push("-p".into());
-        a.push(self.port.to_string());
-        a.push("-d".into());
-        a.push(self.dir.to_string_lossy().into_owned());
+        let mut groups: Vec<Vec<String>> = vec![];
+        groups.push(vec!["-i".into(), if self.v6 { "::1".into() } else { "127.0.0.1".into() }]);
+        groups.push(vec!["-p".into(), self.port.to_string()]);
+        groups.push(vec!["-d".into(), self.dir.to_string_lossy().into_owned()]);
         if let Some(d) = &self.send_dir {
-            a.push("-sd".into());
-            a.push(d.to_string_lossy().into_owned());
+            groups.push(vec!["-sd".into(), d.to_string_lossy().into_owned()]);
         }
         if let Some(d) = &self.recv_dir {
-            a.push("-rd".into());
-            a.push(d.to_string_lossy().into_owned());
+            groups.push(vec!["-rd".into(), d.to_string_lossy().into_owned()]);
         }
         if self.single_port {
-            a.push("-s".into());
+            groups.push(vec!["-s".into()]);
         }
         if self.read_only {
-            a.push("-r".into());
+            groups.push(vec!["-r".into()]);
         }
         if self.overwrite {
-            a.push("--overwrite".into());
+            groups.push(vec!["--overwrite".into()]);
         }
         if self.keep_on_error {
-            a.push("--keep-on-error".into());
+            groups.push(vec!["--keep-on-error".into()]);
         }
         if let Some(n) = &self.dup {
-            a.push("--duplicate-packets".into());
-            a.push(n.clone());
+            groups.push(vec!["--duplicate-packets".into(), n.clone()]);
+        }
+        let k = self.arg_rot % groups.len();
+        groups.rotate_left(k);
+        let mut a: Vec<String> = vec!["tftpd".into()];
+        for g in groups {
+            a.extend(g);
         }
         a
     }
@@ -172,7 +195,7 @@ impl ServerCfg {
     }
     pub fn describe(&self) -> String {
         format!(
-            "server[{}{}{}{}{}{}]",
+            "server[{}{}{}{}{}{}{}]",
             if self.single_port { "single-port" } else { "multi-port" },
             if self.read_only { ",read-only" } else { "" },
             if self.overwrite { ",overwrite" } else { "" },
@@ -181,7 +204,8 @@ impl ServerCfg {
             match &self.dup {
                 Some(n) => format!(",dup={n}"),
                 None => String::new(),
-            }
+            },
+            if self.arg_rot > 0 { format!(",args-rotated-by-{}", self.arg_rot) } else { String::new() }
         )
     }
 }
